@@ -93,7 +93,7 @@ def case_stream(ctx, pred):
             if st in DECIMAL:
                 add('Decimal', lex, p)
 
-    full_len = 5 if quick else 6          # lexemes up to this length get every precision
+    full_len = 4 if quick else 6          # lexemes up to this length get every precision
     for lex, st in lexs:
         if len(lex) <= full_len:
             ps = precs_all
@@ -130,8 +130,8 @@ def case_stream(ctx, pred):
                 add('Number', b, p)
             if DEC_RE.match(b):
                 add('Decimal', b, p)
-    for (lx, p) in sorted(pred):           # replay every behaviour of the design model on the real function
-        add('Decimal', lx, p)
+    for (fn, lx, p) in sorted(pred):       # replay every behaviour of the design models on the real functions
+        add(fn, lx, p)
     for c in vlib.known_cases('C08'):
         add(c['fn'], c['in'].encode('latin1') if isinstance(c['in'], str) else c['in'], c['prec'])
     yield batch
@@ -159,20 +159,32 @@ def validate(ctx, exe, cases, tag):
     return lines, accepted, rejects
 
 
-def design_model(ctx):
-    """(MC) D => A for the transcription of Decimal; returns {(lexeme bytes, prec): model output bytes}"""
-    cfg = 'DecimalModel_quick.cfg' if ctx.quick() else 'DecimalModel_thorough.cfg'
-    r = vlib.tlc_mc(ctx, 'DecimalModel', cfg, workers=8, heap='6g', timeout=3000)
-    ctx.coverage['decimal_design_model_states'] = r['distinct']
+def _emitted(r):
     pred = {}
-    for m in re.finditer(r'<<"OUT", (<<[^>]*>>), (-?\d+), (<<[^>]*>>)>>', r['out']):
-        pred[(bytes(vlib.tla_seq_to_list(m.group(1))), int(m.group(2)))] = bytes(vlib.tla_seq_to_list(m.group(3)))
-    if not pred:
+    for m in re.finditer(r'<<\s*"OUT",\s*(<<[^>]*>>),\s*(-?\d+),\s*(<<[^>]*>>)\s*>>', r['out'], re.S):
+        pred[(bytes(vlib.tla_seq_to_list(m.group(1).replace('\n', ' '))), int(m.group(2)))] = \
+            bytes(vlib.tla_seq_to_list(m.group(3).replace('\n', ' ')))
+    return pred
+
+
+def design_model(ctx):
+    """(MC) D => A for the transcriptions of Decimal and Number; returns
+    {(fn, lexeme bytes, prec): model output bytes} = every finished behaviour of the design models"""
+    tier = 'quick' if ctx.quick() else 'thorough'
+    r = vlib.tlc_mc(ctx, 'DecimalModel', 'DecimalModel_%s.cfg' % tier, workers=8, heap='6g', timeout=3000)
+    ctx.coverage['decimal_design_model_states'] = r['distinct']
+    pd = _emitted(r)
+    r = vlib.tlc_mc(ctx, 'NumberModel', 'NumberModel_%s.cfg' % tier, workers=8, heap='6g', timeout=3000)
+    ctx.coverage['number_design_model_states'] = r['distinct']
+    pn = _emitted(r)
+    if not pd or not pn:
         raise vlib.Infra('design model emitted no behaviours')
     # the old (pre ce8ac76) carry line must still be a design-level counterexample: guards against a vacuous DoneOK
     r2 = vlib.tlc(ctx, 'DecimalModel', 'DecimalModel_oldcarry.cfg', workers=4, heap='3g', timeout=900)
     if 'DoneOK' not in r2['invariant_violations']:
         raise vlib.Infra('DecimalModel with OldCarry=TRUE should violate DoneOK (vacuity guard)')
+    pred = {('Decimal',) + k: v for k, v in pd.items()}
+    pred.update({('Number',) + k: v for k, v in pn.items()})
     return pred
 
 
@@ -187,19 +199,19 @@ def run(ctx):
         total += len(lines)
         accepted_total += accepted
         for i, l in enumerate(lines):
-            if '"out":' + l[l.index('"in":') + 5:l.index(',"prec"')] + ',' in l:
-                continue                                     # out == in: trivial, nothing to record
             e = json.loads(l)
-            if e['fn'] == 'Decimal' and (bytes(e['in']), e['prec']) in pred:
-                if not e['panic'] and bytes(e['out']) != pred[(bytes(e['in']), e['prec'])] and len(drift) < 20:
-                    drift.append(dict(prec=e['prec'], model=pred[(bytes(e['in']), e['prec'])].decode('latin1'),
+            if (e['fn'], bytes(e['in']), e['prec']) in pred:
+                if not e['panic'] and bytes(e['out']) != pred[(e['fn'], bytes(e['in']), e['prec'])] and len(drift) < 20:
+                    drift.append(dict(fn=e['fn'], prec=e['prec'], model=pred[(e['fn'], bytes(e['in']), e['prec'])].decode('latin1'),
                                       real=bytes(e['out']).decode('latin1'), **{'in': bytes(e['in']).decode('latin1')}))
+            if e['out'] == e['in']:
+                continue                                     # trivial
             nontrivial.add(hash((e['fn'], bytes(e['in']), e['prec'])))
             if len(samples) < 6 and i % 9973 == 0:
                 samples.append(dict(fn=e['fn'], prec=e['prec'], **{'in': bytes(e['in']).decode('latin1')},
                                     out=bytes(e['out']).decode('latin1')))
         for c in cases:
-            if c['fn'] == 'Decimal' and (bytes(c['in']), c['prec']) in pred:
+            if (c['fn'], bytes(c['in']), c['prec']) in pred:
                 replayed += 1
         # every rejected call is re-run alone (fresh process) and re-validated before it counts
         if rejects:
@@ -227,7 +239,7 @@ def run(ctx):
     ctx.coverage['design_model_behaviours_replayed'] = replayed
     ctx.coverage['design_model_drift'] = drift        # information only: the model no longer describes the code
     if drift:
-        vlib.log('DRIFT: DecimalModel and the real Decimal differ on %d replayed behaviours (information, not a verdict)' % len(drift))
+        vlib.log('DRIFT: a design model (DecimalModel/NumberModel) and the real function differ on %d replayed behaviours (information, not a verdict)' % len(drift))
     ctx.coverage.update(dict(
         traces_validated_against_impl=accepted_total,
         evaluations=total,
@@ -236,7 +248,7 @@ def run(ctx):
              '(TLC state dump of NumGen; all 22 precisions up to length %d, a seeded choice of 3-4 precisions per lexeme above), '
              'lexemes met along TLC -simulate walks to length 40, every finished behaviour of the Decimal design model, and the '
              'repository corpus/test inputs; a case is (fn, lexeme, precision); '
-             'non-trivial = the helper returned bytes different from its input' % (5 if ctx.quick() else 6),
+             'non-trivial = the helper returned bytes different from its input' % (4 if ctx.quick() else 6),
         samples=samples,
         exhaustive=True,
         exhaustive_bound='all lexemes with length <= %s over {0,1,4,5,9,+,-,.,e}' % ('6' if ctx.quick() else '7'),
